@@ -26,6 +26,9 @@ FAILING = ('player_raises', 'extractor_raises', 'comparator_raises', 'bad_answer
 
 def check(scenario, obs):
     ids, script = scenario['ids'], scenario['script']
+    if obs['error'] and obs['error'].startswith('HARD-CAP'):
+        raise Violation('the comparison run did not finish: %s (verdicts so far %r)' % (
+            obs['error'][:300], [(c['recording_id'], c['status']) for c in obs['comparisons']]), 'termination')
     if obs['error']:
         raise Violation('run_comparison raised %s' % obs['error'], 'run-raises')
     comps = obs['comparisons']
@@ -99,7 +102,7 @@ def scenarios(draw, dedicated=None):
     ded = draw(st.booleans()) if dedicated is None else dedicated
     if ded:
         pool = ['equal', 'equal', 'different', 'player_raises', 'extractor_raises', 'comparator_raises', 'bare_status',
-                'exit', 'hang', 'late', 'late', 'hang_sigterm_ignored', 'dies_after_giveup', 'bad_answer']
+                'exit', 'hang', 'late', 'late', 'hang_sigterm_ignored', 'dies_after_giveup', 'bad_answer', 'killed_in_poll']
     else:
         pool = ['equal', 'equal', 'different', 'player_raises', 'extractor_raises', 'comparator_raises', 'bare_status']
     behs = [draw(st.sampled_from(pool)) for _ in ids]
@@ -112,6 +115,8 @@ def scenarios(draw, dedicated=None):
 
 
 FIXED = [
+    {'ids': ['a', 'b', 'c', 'd'], 'script': {'a': 'equal', 'b': 'killed_in_poll', 'c': 'equal', 'd': 'different'},
+     'dedicated': True, 'recycle': 2, 'timeout': 0.3, 'keep': True, 'consume': 'full', 'hard_cap_s': 30},
     {'ids': ['r0', 'r1', 'r2', 'r3'], 'script': {'r0': 'equal', 'r1': 'late', 'r2': 'equal', 'r3': 'different'},
      'dedicated': True, 'recycle': 3, 'timeout': 0.3, 'keep': True, 'consume': 'full'},
     {'ids': ['r0', 'r1', 'r2'], 'script': {'r0': 'hang', 'r1': 'exit', 'r2': 'equal'},
